@@ -31,7 +31,12 @@ package xmpp
 //@ func (*Session).IterIQElement
 //@   ensures result2 == nil ==> result0 != nil && result1 != nil
 
+// idOf/typOf name the id and type attribute values getIDTyp extracts from an
+// attribute list (uninterpreted; tied to the code by the defines clause).
+//@ spec idOf(attrs []xml.Attr) string
+//@ spec typOf(attrs []xml.Attr) string
 //@ func getIDTyp
+//@   defines result2 == idOf(attrs) && result3 == typOf(attrs)
 //@   ensures -1 <= result0 && result0 < len(attrs)
 //@   ensures -1 <= result1 && result1 < len(attrs)
 //@   loop 1
@@ -94,6 +99,49 @@ package xmpp
 //@     invariant[C03] !more ==> stepOK
 //@   loop 2
 //@     invariant[C03] selected.Name == "" || (selected.Name == selection.Name && (exists i int :: 0 <= i && i < len(mechanisms) && mechanisms[i].Name == selected.Name))
+
+// ---------------------------------------------------------------------------
+// C07: every get/set IQ is answered exactly once; replies are never answered
+
+//@ spec iqName(n xml.Name) bool = n.Local == "iq" && (n.Space == "jabber:client" || n.Space == "jabber:server")
+//@ spec iqNameES(n xml.Name) bool = n.Local == "iq" && (n.Space == "" || n.Space == "jabber:client" || n.Space == "jabber:server")
+
+// The reply detector: an element written by the handler counts as the reply
+// iff it is a top-level iq start element with the request's id and type
+// result or error.
+//@ func (*responseChecker).EncodeToken
+//@   ghost w0 bool
+//@   ghost l0 int
+//@   ghost i0 string
+// the wrapped writer does not reach back into the checker
+//@   callsite (mellium.im/xmlstream.TokenWriter).EncodeToken#1
+//@     before: w0 = rw.wroteResp
+//@     before: l0 = rw.level
+//@     before: i0 = rw.id
+//@     assume[C07] rw.wroteResp == w0 && rw.level == l0 && rw.id == i0
+//@   ensures[C07] rw.wroteResp <==> old(rw.wroteResp) || (old(rw.level) < 1 && typeof(t) == xml.StartElement && iqNameES(t.(xml.StartElement).Name) && old(idOf(t.(xml.StartElement).Attr)) == rw.id && (old(typOf(t.(xml.StartElement).Attr)) == "result" || old(typOf(t.(xml.StartElement).Attr)) == "error"))
+//@   ensures[C07] rw.level == old(rw.level) + ite(typeof(t) == xml.StartElement, 1, ite(typeof(t) == xml.EndElement, -1, 0))
+//@   ensures[C07] rw.id == old(rw.id)
+
+// The serve step: the session adds the service-unavailable reply exactly when
+// the request is a get/set IQ and the handler wrote no reply; it carries the
+// request id and goes to the request's sender.
+//@ func handleInputStream
+//@   ghost handlerCalls int = 0
+//@   ghost autoReply bool = false
+//@   callsite (xmpp.Handler).HandleXMPP#1
+//@     assert[C07] rw.id == id && !rw.wroteResp && rw.level == 0
+//@     assert[C07] iqOk == iqName(start.Name)
+//@     after: handlerCalls = handlerCalls + 1
+//@   callsite mellium.im/xmpp/internal/attr.Get#1
+//@     assert[C07] iqOk && (typ == "get" || typ == "set") && !rw.wroteResp
+//@   callsite (mellium.im/xmpp/stanza.IQ).Wrap#1
+//@     assert[C07] arg0.ID == id && arg0.Type == "error"
+//@     after: autoReply = true
+//@   callsite (*deferWriter).Flush#1
+//@     assert[C07] !autoReply ==> !(iqOk && (typ == "get" || typ == "set") && !rw.wroteResp)
+//@   ensures[C07] handlerCalls <= 1
+//@   ensures[C07] autoReply ==> handlerCalls == 1
 
 // BEGIN enrolment C09 (generated by the safety sweep: every safety obligation of these functions is discharged)
 //@ nopanic [C09] (*Session).Close
